@@ -26,6 +26,30 @@ ENCODER = "escape_dot_string"
 WRAPPER = "make_dot_string_constant"
 
 
+def _names(repo, _c={}):
+    """(encoder name, wrapper name) of the dot dumpers, found by SHAPE in the modules that write dot files: the encoder is the
+    String <- &str function that is a bare replace chain / per-character loop (no quotes of its own), the wrapper the one that
+    formats `"<encoder(param)>"`; the historical names are the fallback"""
+    if id(repo) in _c:
+        return _c[id(repo)]
+    enc, wrap = ENCODER, WRAPPER
+    cands = []
+    for mod in ("regex", "dfa"):
+        for f in repo.fns_in(mod):
+            if len(f.params) == 1 and "str" in (f.params[0].get("ty") or ""):
+                ch = X.extract_encoder(f)
+                if ch is not None and ch[0] == "" and ch[1] == "" and list(ch[2]):
+                    cands.append(f)
+    if len(cands) == 1:
+        enc = cands[0].name
+        for mod in ("regex", "dfa"):
+            for f in repo.fns_in(mod):
+                if len(f.params) == 1 and f is not cands[0] and list(P.find_calls(f.body, names={enc})) and any(n["k"] == "Macro" and n["name"].split("::")[-1] == "format" for n in A.walk(f.body)) and len(f.body.get("stmts", [])) <= 2:
+                    wrap = f.name
+    _c[id(repo)] = (enc, wrap)
+    return enc, wrap
+
+
 def sinks(repo):
     out = []
     for mod in ("dfa", "regex"):
@@ -36,7 +60,8 @@ def sinks(repo):
 
 
 def enc_rule(repo, res, rule="ENC", tier="quick"):
-    cands = [f for q, f in repo.fns.items() if f.name == ENCODER]
+    ENCODER, WRAPPER = _names(repo)
+    cands = [f for q, f in repo.fns.items() if f.name == ENCODER and f.module in ("regex", "dfa")]
     if len(cands) != 1:
         res.undecided(rule, f"{rule}:{ENCODER}", f"{len(cands)} functions named {ENCODER}")
         return
@@ -81,6 +106,7 @@ def enc_rule(repo, res, rule="ENC", tier="quick"):
 
 
 def sink_rule(repo, res, ty, rule="SINK"):
+    ENCODER, WRAPPER = _names(repo)
     enc = T.Taint(repo, ty, {ENCODER, WRAPPER})
     only_bare = T.Taint(repo, ty, {ENCODER})
     anyt = T.Taint(repo, ty, set())
